@@ -165,7 +165,7 @@ def main(run):
     def flush():
         nonlocal shard, body, em, npairs
         if body:
-            text = L.HEADER.replace("Props.C29_model.", "Props.C29_model Props.C12_model.") + \
+            text = L.header(("Props.C29_model", "Props.C12_model")) + \
                 "\n".join(em.lines) + "\n\n" + "\n".join(body) + "\n"
             path = os.path.join(vlib.GEN, f"C12_cases_{shard}.v")
             vlib.write_if_changed(path, text)
